@@ -24,6 +24,10 @@ JAR = "/opt/veriftools/tla/tla2tools.jar:/opt/veriftools/tla/CommunityModules-de
 NCPU = os.cpu_count() or 4
 
 
+import threading
+_LOCK = threading.Lock()
+
+
 class Infra(Exception):
     """Anything that is not a verdict about the code: exit 2."""
 
@@ -145,9 +149,10 @@ class Ctx:
             coverage=False, heap="4g", extra=None, count=True, quiet=False):
         """Run TLC on spec/<module>.tla with the config text or spec/<cfg> file.
         files: {name: path-or-bytes} copied next to the spec (trace/case data)."""
-        self._n += 1
-        d = os.path.join(self.scratch, "tlc%03d_%s" % (self._n, module))
-        os.makedirs(d)
+        with _LOCK:
+            self._n += 1
+            d = os.path.join(self.scratch, "tlc%03d_%s" % (self._n, module))
+            os.makedirs(d)
         for f in os.listdir(os.path.join(VERIF, "spec")):
             if f.endswith(".tla"):
                 shutil.copy(os.path.join(VERIF, "spec", f), d)
